@@ -83,6 +83,12 @@ opt-level = 1
 '''
 
 
+def _fail(msg):
+    """the reason is left next to where the bin would be; memo_run relays it in (shuttle-bin-missing ...)"""
+    open(os.path.join(SHUTTLE_DIR, 'build.log'), 'w').write(msg)
+    return False, msg
+
+
 def ensure_shuttle():
     """(Re)build the schedule explorer from the CURRENT sources when they changed.  Returns (ok, log)."""
     src = os.path.join(REPO, 'intl-memoizer', 'src')
@@ -114,10 +120,15 @@ def ensure_shuttle():
         shutil.copyfile(SHUTTLE_SRC, os.path.join(dst, 'bin', 'c14_shuttle.rs'))
         cpath = os.path.join(dst, 'concurrent.rs')
         text = open(cpath).read() if os.path.exists(cpath) else ''
-        patched = text.replace('use std::sync::Mutex;', 'use shuttle::sync::Mutex;')
+        patched = text.replace('std::sync::Mutex', 'shuttle::sync::Mutex')
+
+        def _grouped(m):
+            rest = [x.strip() for x in m.group(1).split(',') if x.strip() and x.strip() != 'Mutex']
+            return 'use shuttle::sync::Mutex;' + ('\nuse std::sync::{%s};' % ', '.join(rest) if rest else '')
+        patched = re.sub(r'use std::sync::\{([^}]*\bMutex\b[^}]*)\};', _grouped, patched)
         if patched == text:
-            return False, ('concurrent.rs has no `use std::sync::Mutex;` to replace by shuttle\'s: the lock of the concurrent '
-                           'memoizer changed, the schedule exploration (and the atomicity reading of the model) must be redone')
+            return _fail('concurrent.rs does not import std::sync::Mutex any more, so shuttle\'s Mutex cannot be substituted: the lock of the '
+                         'concurrent memoizer changed; the schedule exploration (and the atomicity reading of the model) must be redone')
         open(cpath, 'w').write(patched)
         open(os.path.join(SHUTTLE_DIR, 'Cargo.toml'), 'w').write(CARGO_TOML)
         lock = os.path.join(REPO, 'Cargo.lock')
@@ -132,9 +143,9 @@ def ensure_shuttle():
                 os.remove(os.path.join(SHUTTLE_DIR, 'Cargo.lock'))
                 p = subprocess.run(cmd, cwd=SHUTTLE_DIR, env=env, stdout=subprocess.PIPE, stderr=subprocess.STDOUT, text=True, timeout=900)
         except subprocess.TimeoutExpired:
-            return False, 'cargo build of the schedule explorer timed out'
+            return _fail('cargo build of the schedule explorer timed out')
         if p.returncode != 0 or not os.path.exists(SHUTTLE_BIN):
-            return False, 'schedule explorer does not build against the current intl-memoizer:\n' + p.stdout[-1500:]
+            return _fail('schedule explorer does not build against the current intl-memoizer:\n' + p.stdout[-1500:])
         open(stamp, 'w').write(digest)
         return True, 'built'
 
@@ -301,6 +312,8 @@ def oracle_seq(c, o):
                     return where + 'callback did not run on the one instance of its key / result changed: expected %s got %s' % (sexp.dumps(want), sexp.dumps(out))
                 continue
             # not cached: exactly one construct call, with exactly the requested args and the memoizer's language
+            if sexp.tag(out) == 'ok' and isinstance(out[2], list) and len(out[2]) == 5 and out[2][4] < nev:
+                return where + 'key never constructed successfully by this memoizer, yet the callback ran on an older instance %s (of another key or memoizer)' % sexp.dumps(out[2])
             if nev >= len(trace):
                 return where + 'key not cached but construct was not called'
             e = trace[nev]
@@ -416,7 +429,10 @@ def oracle_shuttle(c, o):
     progs = [[(r[0], r[1], r[2]) for r in th] for th in c[5]]
     scen = '/'.join(','.join('%d:%s:%d' % (t, a.hex(), cb) for (t, a, cb) in p) for p in progs)
     if tag == 'shuttle-bin-missing':
-        return 'schedule explorer unavailable (%s): %s' % (o[1].decode('utf-8', 'replace'), _shuttle_log[0][-600:])
+        # not a failing input: the tie between the model's granularity and the code cannot be re-established.  The model's
+        # output differs from this line, so the run ends in "correspondence broken ... no-failing-input-found".
+        print('  C14: schedule explorer unavailable: ' + (o[2].decode('utf-8', 'replace') if len(o) > 2 else _shuttle_log[0])[-800:], file=sys.stderr)
+        return None
     if tag != 'shuttle' or len(o) < 4:
         return 'schedule explorer failed: ' + sexp.dumps(o)[:400]
     if o[2] == b'fail':
